@@ -926,7 +926,7 @@ def tlc_batches(ctx, cases, label, nbatch):
     """validate cases with the acceptor, split over parallel TLC processes; returns rejects by id."""
     if not cases:
         return {}
-    nbatch = max(1, min(nbatch, (len(cases) + 199) // 200))
+    nbatch = max(1, min(nbatch, (len(cases) + 299) // 300))
     chunks = [cases[i::nbatch] for i in range(nbatch)]
     paths = []
     for k, ch in enumerate(chunks):
@@ -934,7 +934,8 @@ def tlc_batches(ctx, cases, label, nbatch):
         with open(p, "w") as f:
             json.dump([{k2: c[k2] for k2 in ("id", "body", "env0", "opts", "cpy", "pys")} for c in ch], f)
         paths.append(p)
-    results = parallel([(lambda p=p: tlc.accept_batch("PyExpr", p, ctx.scratch, timeout=3000)) for p in paths], max_workers=nbatch)
+    jopts = {"JAVA_TOOL_OPTIONS": "-Xss256m -XX:ParallelGCThreads=2 -XX:CICompilerCount=2 -XX:TieredStopAtLevel=1"}
+    results = parallel([(lambda p=p: tlc.accept_batch("PyExpr", p, ctx.scratch, timeout=3000, env=jopts)) for p in paths], max_workers=nbatch)
     rej = {}
     for ch, res, p in zip(chunks, results, paths):
         if res.distinct != len(ch) + 1:
@@ -995,10 +996,14 @@ def selftest(ctx, cases):
     for c in pool[:60]:
         tr = c["cpy"]["trace"]
         muts = []
-        i = r.randrange(len(tr))
-        muts.append(("drop", lambda t, i=i: t[:i] + t[i + 1:]))
+        # (dropping / swapping `next` events of a loop yields a valid behaviour over a shorter / permuted
+        # iterable: not a corruption the recording alone can reveal)
+        cand = [i for i, e in enumerate(tr) if e["e"] != "next"]
+        if cand:
+            i = r.choice(cand)
+            muts.append(("drop", lambda t, i=i: t[:i] + t[i + 1:]))
         j = r.randrange(len(tr) - 1)
-        if tr[j] != tr[j + 1] and not (tr[j]["e"] == tr[j + 1]["e"] == "t" and False):
+        if tr[j] != tr[j + 1] and "next" not in (tr[j]["e"], tr[j + 1]["e"]):
             muts.append(("swap", lambda t, j=j: t[:j] + [t[j + 1], t[j]] + t[j + 2:]))
         ks = [k for k, e in enumerate(tr) if any(x.get("k") == "v" for x in e["xs"])]
         if ks:
@@ -1037,21 +1042,29 @@ def selftest(ctx, cases):
 
 def build_programs(ctx):
     progs = []
+    r = random.Random(ctx.seed)
 
-    def add(fam, items, opts_list):
-        for (pid, src) in items:
-            for oi, opts in enumerate(opts_list):
-                progs.append({"id": "%s#%d" % (pid, oi), "fam": fam, "src": src + "\n", "opts": opts})
+    def add(fam, items, opts_list, alternate=False):
+        for k, (pid, src) in enumerate(items):
+            ol = [opts_list[k % len(opts_list)]] if alternate else opts_list
+            for opts in ol:
+                progs.append({"id": "%s#%s" % (pid, "q" if opts is QUIET else "u"), "fam": fam, "src": src + "\n", "opts": opts})
     tables = gen_tables(not ctx.quick)
     tpls = gen_templates()
     if ctx.quick:
-        r = random.Random(ctx.seed)
-        tables = [x for x in tables if x[0].split("/")[0] not in ("bin", "aug", "cmp") or r.random() < 0.34]
-        tpls = [x for x in tpls if x[0].count("/") == 1 or "raise@" in x[0] or r.random() < 0.3]
-    add("table", tables, [OPTS0, QUIET])
-    add("template", tpls, [OPTS0, QUIET])
-    nrand = ctx.pick(1500, 30000)
-    per = max(50, nrand // 30)
+        # quick tier: every template as written and with a raising operand at every child position (both
+        # spaces); a seeded sample of the kind substitutions and of the operator x kind tables
+        base = [x for x in tpls if x[0].count("/") == 1 or "raise@" in x[0]]
+        rest = [x for x in tpls if not (x[0].count("/") == 1 or "raise@" in x[0])]
+        add("template", base, [OPTS0, QUIET])
+        add("template", r.sample(rest, len(rest) // 12), [OPTS0, QUIET], alternate=True)
+        add("table", r.sample(tables, len(tables) // 8), [OPTS0, QUIET], alternate=True)
+    else:
+        add("table", tables, [OPTS0, QUIET])
+        add("template", tpls, [OPTS0, QUIET])
+    add("witness", [("witness/%d" % i, f["witness"]) for i, f in enumerate(ctx.findings) if f.get("status") == "known"], [OPTS0])
+    nrand = ctx.pick(300, 20000)
+    per = ctx.pick(100, 500)
     k = 0
     while k * per < nrand:
         add("random", gen_random(ctx.seed * 100000 + k, per, False, ctx.pick(4, 5)), [OPTS0])
@@ -1060,10 +1073,9 @@ def build_programs(ctx):
     return progs
 
 
-def execute(ctx, progs):
-    nproc = 14
-    per = max(1, (len(progs) + nproc * 3 - 1) // (nproc * 3))
-    jobs = [{"progs": progs[i:i + per]} for i in range(0, len(progs), per)]
+def execute(ctx, progs, nproc=12):
+    nproc = max(1, min(nproc, len(progs) // 100 + 1))
+    jobs = [{"progs": progs[i::nproc]} for i in range(nproc)]
     outs = run_workers("harness.drivers.c01", "work", jobs, ctx.scratch, nproc=nproc)
     cases = [c for o in outs for c in o]
     for c in cases:
@@ -1086,9 +1098,14 @@ def main(ctx):
         classify(ctx, cases, rej, new_stats())
         ctx.cov["traces_validated_against_impl"] = len(cases)
         return
+    import time
+    t0 = time.time()
     progs = build_programs(ctx)
-    cases = execute(ctx, progs)
-    rej = tlc_batches(ctx, cases, "main", ctx.pick(10, 14))
+    t1 = time.time()
+    cases = execute(ctx, progs, nproc=ctx.pick(5, 14))     # a worker costs ~8 s CPU of imports, the programs ~1 ms each
+    t2 = time.time()
+    rej = tlc_batches(ctx, cases, "main", ctx.pick(5, 14))
+    ctx.cov["timing_s"] = {"generate": round(t1 - t0, 1), "execute_both_interpreters": round(t2 - t1, 1), "tlc_acceptor": round(time.time() - t2, 1)}
     stats = new_stats()
     accepted = set(classify(ctx, cases, rej, stats))
     if stats["skipped_not_modelled"] > 0.05 * len(cases):
